@@ -296,14 +296,10 @@ impl PatchLocator {
                     _ => Err(Error::InvalidOffsetFrom(id.string_for_error())),
                 }
             }
-            DisambiguatedId::FromBase(offset) => {
-                let index = -1 + offset;
-                if index < 0 || (index as usize) < patches.len() {
-                    Ok(index)
-                } else {
-                    Err(Error::InvalidOffsetFrom(id.string_for_error()))
-                }
-            }
+            DisambiguatedId::FromBase(offset) => match offset.checked_sub(1) {
+                Some(index) if index < 0 || (index as usize) < patches.len() => Ok(index),
+                _ => Err(Error::InvalidOffsetFrom(id.string_for_error())),
+            },
             DisambiguatedId::FromLast(offset) => {
                 if patches.is_empty() {
                     Err(Error::NoLastPatch)
@@ -473,13 +469,15 @@ impl PatchLocator {
                     use super::parse::Sign;
                     let id = match sign {
                         Some(sign) => {
-                            let n: isize = maybe_n
-                                .unwrap_or(1)
-                                .try_into()
-                                .expect("parser ensures n fits in isize");
+                            let n = maybe_n.unwrap_or(1);
                             let n = match sign {
-                                Sign::Plus => n,
-                                Sign::Minus => n.checked_neg().unwrap(),
+                                Sign::Plus => {
+                                    isize::try_from(n).expect("parser ensures n fits in isize")
+                                }
+                                // N.B. the magnitude of isize::MIN does not fit in isize.
+                                Sign::Minus => 0isize
+                                    .checked_sub_unsigned(n)
+                                    .expect("parser ensures -n fits in isize"),
                             };
                             if stack.applied().is_empty() {
                                 DisambiguatedId::FromBase(n)
